@@ -337,8 +337,9 @@ def G.terminal (g : G) : Except Err (List Nat) :=
 
 /-- `graft(node)` where `sub` is the graph that `node` denotes -/
 def G.graft (g : G) (x : Nat) (sub : G) : Except Err G := do
-  let deps ← g.dependencies x
-  let dependees ← g.dependees x
+  -- an edge from the node to itself disappears with it
+  let deps := (← g.dependencies x).filter (· ≠ x)
+  let dependees := (← g.dependees x).filter (· ≠ x)
   let g ← g.removeNode x
   let inits ← sub.initial
   let terms ← sub.terminal
